@@ -41,6 +41,19 @@ CLAIMED["C11"] = ("DESIGN.md §4 C11",
     "trusted: pysym; Table built directly over real cells with a stub model; outside: growth > 3, shapes beyond 3x2, "
     "set_cell_formatting/set_cell_border beyond the shared coordinate check")
 
+CLAIMED["C03"] = ("DESIGN.md §4 C03",
+    "One inductive step from an arbitrary valid table state: for add_row/add_column/delete_row/delete_column/write with "
+    "every integer start index (or None), counts 1..3 and optional default, z3 shows the real Table code yields exactly the "
+    "grid a plain list-of-lists yields, restores the representation invariant (each cell reports its own position), and "
+    "rejects out-of-range starts without change. By induction: histories of any length over these operations (small-scope shapes).",
+    "trusted: pysym; stub model (row/column counters, empty merge map); outside: save/reopen, add_table/add_sheet cloning, "
+    "isolation between documents, shapes beyond 3x2")
+CLAIMED["C12"] = ("DESIGN.md §4 C12",
+    "All rectangles in tables up to 3x3 (and disjoint pairs given as a list): z3 shows anchor, placeholders, untouched cells "
+    "and merge_ranges of the real merge_cells/_set_merge are exactly the rectangle; the real merge-map writer/reader pair is "
+    "checked as a codec over symbolic origins within the table limits; one insertion step after a merge. Two known findings.",
+    "trusted: pysym; record stubs for protobuf CellID/TableSize (uint32 range enforced); outside: reload through real archives")
+
 NOT_APPLICABLE = {}
 
 
